@@ -9,13 +9,84 @@ variable {K V D : Type} [LinearOrder K] [LinearOrder V] [DecidableEq D]
 /-- `n` fresh replicas. -/
 def freshReplicas (n : Nat) : List (Replica K V D) := List.replicate n Replica.empty
 
+/-! ### One step of a schedule, concretely -/
+
+theorem step_pull_gen (lvl : K → Nat) (hlvl : ∀ k, lvl k < 255) (hc : HashCfg K V D) (m : Merge)
+    (rs : List (Replica K V D)) (hrs : ∀ r ∈ rs, RInv lvl hc r) (i j : Nat) :
+    ∃ rs', syncStep lvl hc m rs (.pull i j) = .ok rs' ∧
+      ((rs' = rs ∧ (i = j ∨ rs[i]? = none ∨ rs[j]? = none)) ∨
+       (i ≠ j ∧ ∃ ri rj ri' rj' ranges, rs[i]? = some ri ∧ rs[j]? = some rj ∧
+          pull lvl hc m ri rj = .ok (ri', rj') ∧ RInv lvl hc ri' ∧ RInv lvl hc rj' ∧
+          rj'.store = rj.store ∧ ri'.store = absorbStore m ri.store (fetch rj.store ranges) ∧
+          rs' = (rs.set i ri').set j rj')) := by
+  by_cases hij : i = j
+  · exact ⟨rs, by simp [syncStep, hij], Or.inl ⟨rfl, Or.inl hij⟩⟩
+  · cases hi : rs[i]? with
+    | none => exact ⟨rs, by simp [syncStep, hij, hi], Or.inl ⟨rfl, Or.inr (Or.inl rfl)⟩⟩
+    | some ri =>
+      cases hj : rs[j]? with
+      | none => exact ⟨rs, by simp [syncStep, hij, hi, hj], Or.inl ⟨rfl, Or.inr (Or.inr rfl)⟩⟩
+      | some rj =>
+        have hri := hrs ri (List.mem_of_getElem? hi)
+        have hrj := hrs rj (List.mem_of_getElem? hj)
+        obtain ⟨ranges, ri', rj', hp, h1, h2, h3, h4, -⟩ := pull_spec lvl hlvl hc m ri rj hri hrj
+        exact ⟨(rs.set i ri').set j rj', by simp [syncStep, hij, hi, hj, hp, setAt],
+          Or.inr ⟨hij, ri, rj, ri', rj', ranges, rfl, rfl, hp, h1, h2, h3, h4, rfl⟩⟩
+
+theorem step_write_gen (lvl : K → Nat) (hlvl : ∀ k, lvl k < 255) (hc : HashCfg K V D) (m : Merge)
+    (rs : List (Replica K V D)) (hrs : ∀ r ∈ rs, RInv lvl hc r) (r : Nat) (k : K) (v : V) :
+    ∃ rs', syncStep lvl hc m rs (.write r k v) = .ok rs' ∧
+      ((rs' = rs ∧ rs[r]? = none) ∨
+       (∃ rep rep', rs[r]? = some rep ∧ RInv lvl hc rep' ∧
+          rep'.store = insertKV k (m.apply (lookupKV k rep.store) v) rep.store ∧
+          rs' = rs.set r rep')) := by
+  cases hr : rs[r]? with
+  | none => exact ⟨rs, by simp [syncStep, hr], Or.inl ⟨rfl, rfl⟩⟩
+  | some rep =>
+    have hrep := hrs rep (List.mem_of_getElem? hr)
+    obtain ⟨rep', hw, h1, h2⟩ := write_spec lvl hlvl hc m rep hrep k v
+    exact ⟨rs.set r rep', by simp [syncStep, hr, hw, setAt], Or.inr ⟨rep, rep', rfl, h1, h2, rfl⟩⟩
+
+theorem step_gen_inv (lvl : K → Nat) (hlvl : ∀ k, lvl k < 255) (hc : HashCfg K V D) (m : Merge)
+    (rs : List (Replica K V D)) (hrs : ∀ r ∈ rs, RInv lvl hc r) (op : SyncOp K V) :
+    ∃ rs', syncStep lvl hc m rs op = .ok rs' ∧ rs'.length = rs.length ∧
+      ∀ r ∈ rs', RInv lvl hc r := by
+  cases op with
+  | write r k v =>
+    obtain ⟨rs', h, hc'⟩ := step_write_gen lvl hlvl hc m rs hrs r k v
+    refine ⟨rs', h, ?_⟩
+    rcases hc' with ⟨rfl, -⟩ | ⟨rep, rep', -, h1, -, rfl⟩
+    · exact ⟨rfl, hrs⟩
+    · refine ⟨by simp, ?_⟩
+      intro x hx
+      rcases List.mem_or_eq_of_mem_set hx with hx | rfl
+      · exact hrs x hx
+      · exact h1
+  | pull i j =>
+    obtain ⟨rs', h, hc'⟩ := step_pull_gen lvl hlvl hc m rs hrs i j
+    refine ⟨rs', h, ?_⟩
+    rcases hc' with ⟨rfl, -⟩ | ⟨-, ri, rj, ri', rj', ranges, -, -, -, h1, h2, -, -, rfl⟩
+    · exact ⟨rfl, hrs⟩
+    · refine ⟨by simp, ?_⟩
+      intro x hx
+      rcases List.mem_or_eq_of_mem_set hx with hx | rfl
+      · rcases List.mem_or_eq_of_mem_set hx with hx | rfl
+        · exact hrs x hx
+        · exact h1
+      · exact h2
+
 /-- Refinement (every schedule, every merge rule): no operation panics and every replica's
 incrementally maintained tree — with whatever cache state its history left — satisfies the tree
 invariant and mirrors its store at every step. -/
 theorem syncRun_inv (lvl : K → Nat) (hlvl : ∀ k, lvl k < 255) (hc : HashCfg K V D) (m : Merge)
     (rs : List (Replica K V D)) (hrs : ∀ r ∈ rs, RInv lvl hc r) (ops : List (SyncOp K V)) :
     ∃ rs', syncRun lvl hc m rs ops = .ok rs' ∧ rs'.length = rs.length ∧ ∀ r ∈ rs', RInv lvl hc r := by
-  sorry
+  induction ops generalizing rs with
+  | nil => exact ⟨rs, rfl, rfl, hrs⟩
+  | cons op ops ih =>
+    obtain ⟨rs1, h1, hl1, hi1⟩ := step_gen_inv lvl hlvl hc m rs hrs op
+    obtain ⟨rs2, h2, hl2, hi2⟩ := ih rs1 hi1
+    exact ⟨rs2, by simp [syncRun, h1, h2], hl2.trans hl1, hi2⟩
 
 /-- The join of everything ever written to key `k` by the write operations of a schedule. -/
 def written (ops : List (SyncOp K V)) (k : K) : Option V :=
@@ -30,6 +101,603 @@ def optLe : Option V → Option V → Prop
   | some _, none => False
   | some x, some y => x ≤ y
 
+/-! ### The option join and its order -/
+
+/-- option join: `none` is the unit -/
+def optMax : Option V → Option V → Option V
+  | none, y => y
+  | some x, none => some x
+  | some x, some y => some (max x y)
+
+theorem optLe_refl (x : Option V) : optLe x x := by
+  cases x <;> simp [optLe]
+
+theorem optLe_trans {x y z : Option V} (h1 : optLe x y) (h2 : optLe y z) : optLe x z := by
+  cases x <;> cases y <;> cases z <;> simp_all [optLe]
+  exact le_trans h1 h2
+
+theorem optLe_antisymm {x y : Option V} (h1 : optLe x y) (h2 : optLe y x) : x = y := by
+  cases x <;> cases y <;> simp_all [optLe]
+  exact le_antisymm h1 h2
+
+theorem optLe_none {x : Option V} (h : optLe x none) : x = none := by
+  cases x <;> simp_all [optLe]
+
+theorem optLe_optMax_left (x y : Option V) : optLe x (optMax x y) := by
+  cases x <;> cases y <;> simp [optLe, optMax]
+
+theorem optLe_optMax_right (x y : Option V) : optLe y (optMax x y) := by
+  cases x <;> cases y <;> simp [optLe, optMax]
+
+theorem optMax_le {x y z : Option V} (h1 : optLe x z) (h2 : optLe y z) : optLe (optMax x y) z := by
+  cases x <;> cases y <;> cases z <;> simp_all [optLe, optMax]
+
+theorem optMax_choice (x y : Option V) : optMax x y = x ∨ optMax x y = y := by
+  cases x with
+  | none => right; rfl
+  | some a =>
+    cases y with
+    | none => left; rfl
+    | some b =>
+      rcases le_total a b with h | h
+      · right; simp [optMax, max_eq_right h]
+      · left; simp [optMax, max_eq_left h]
+
+theorem optMax_self (x : Option V) : optMax x x = x := by
+  rcases optMax_choice x x with h | h <;> exact h
+
+theorem apply_joinMax (old : Option V) (v : V) :
+    some (Merge.apply .joinMax old v) = optMax old (some v) := by
+  cases old with
+  | none => rfl
+  | some o =>
+    simp only [Merge.apply, optMax]
+    by_cases h : o < v
+    · simp [h, max_eq_right (le_of_lt h)]
+    · simp [h, max_eq_left (not_lt.1 h)]
+
+theorem written_snoc_write (ops : List (SyncOp K V)) (r : Nat) (kw : K) (v : V) (k : K) :
+    written (ops ++ [SyncOp.write r kw v]) k =
+      if kw = k then optMax (written ops k) (some v) else written ops k := by
+  unfold written
+  rw [List.foldl_append]
+  simp only [List.foldl_cons, List.foldl_nil]
+  by_cases h : kw = k
+  · simp only [h, if_true]
+    cases List.foldl _ none ops <;> rfl
+  · simp only [h, if_false]
+
+theorem written_snoc_pull (ops : List (SyncOp K V)) (i j : Nat) (k : K) :
+    written (ops ++ [SyncOp.pull i j]) k = written ops k := by
+  unfold written
+  rw [List.foldl_append]
+  rfl
+
+/-! ### Stores as lookup functions -/
+
+theorem storeN_ext (s s' : List (K × V)) (hs : KSorted s) (hs' : KSorted s')
+    (h : ∀ k, lookupKV k s = lookupKV k s') : s = s' := by
+  apply ksorted_ext _ _ hs hs'
+  rintro ⟨k, v⟩
+  rw [← lookupKV_eq_some s hs, ← lookupKV_eq_some s' hs', h]
+
+/-- the receiver's store after a join-pull, keywise -/
+def PullRel (sa sb sa' : List (K × V)) : Prop :=
+  ∀ k, lookupKV k sa' = lookupKV k sa ∨ lookupKV k sa' = optMax (lookupKV k sa) (lookupKV k sb)
+
+theorem pullN_lookup (s t : List (K × V)) (hs : KSorted s) (ht : KSorted t) (R : List (DR K)) :
+    PullRel s t (absorbStore .joinMax s (fetch t R)) := by
+  intro k
+  rw [lookup_absorbStore .joinMax s (fetch t R) hs (fetch_sorted t ht R) k, lookup_fetch t ht R k]
+  by_cases hin : inRanges R k = true
+  · simp only [hin, if_true]
+    cases ht' : lookupKV k t with
+    | none => left; rfl
+    | some v => right; exact apply_joinMax _ _
+  · left; simp [hin]
+
+theorem write_lookup (s : List (K × V)) (hs : KSorted s) (k : K) (v : V) (k' : K) :
+    lookupKV k' (insertKV k (Merge.apply .joinMax (lookupKV k s) v) s) =
+      if k' = k then optMax (lookupKV k s) (some v) else lookupKV k' s := by
+  have := lookup_absorbStore .joinMax s [(k, v)] hs (by simp [KSorted]) k'
+  simp only [absorbStore] at this
+  rw [this]
+  simp only [lookupKV]
+  by_cases h : k = k'
+  · subst h; simp [apply_joinMax]
+  · simp [h, Ne.symm h]
+
+theorem pullRel_self (s s' : List (K × V)) (hs : KSorted s) (hs' : KSorted s')
+    (h : PullRel s s s') : s' = s := by
+  apply storeN_ext _ _ hs' hs
+  intro k
+  rcases h k with h | h
+  · exact h
+  · rw [h, optMax_self]
+
+/-! ### The safety invariant on the list of stores -/
+
+/-- Safety invariant, on the list of stores, relative to the schedule executed so far. -/
+structure SGood (ops : List (SyncOp K V)) (S : List (List (K × V))) : Prop where
+  le : ∀ s ∈ S, ∀ k, optLe (lookupKV k s) (written ops k)
+  att : ∀ k v, written ops k = some v → ∃ s ∈ S, lookupKV k s = some v
+  wr : ∀ s ∈ S, ∀ k x, lookupKV k s = some x → ∃ r0, SyncOp.write r0 k x ∈ ops
+
+theorem mem_set_self' {α : Type} (l : List α) (i : Nat) (x : α) (h : i < l.length) : x ∈ l.set i x :=
+  List.mem_iff_getElem?.2 ⟨i, by simp [h]⟩
+
+theorem mem_set_ne' {α : Type} (l : List α) (i idx : Nat) (x a : α) (h : l[idx]? = some a)
+    (hne : idx ≠ i) : a ∈ l.set i x :=
+  List.mem_iff_getElem?.2 ⟨idx, by simp [Ne.symm hne, h]⟩
+
+theorem lt_of_getElem?_some {α : Type} {l : List α} {i : Nat} {a : α} (h : l[i]? = some a) :
+    i < l.length := by
+  obtain ⟨h', -⟩ := List.getElem?_eq_some_iff.1 h
+  exact h'
+
+theorem optMax_eq_some {x y : Option V} {z : V} (h : optMax x y = some z) : x = some z ∨ y = some z := by
+  rcases optMax_choice x y with h' | h'
+  · left; rw [← h', h]
+  · right; rw [← h', h]
+
+theorem sgood_set_pull (ops : List (SyncOp K V)) (S : List (List (K × V))) (h : SGood ops S)
+    (i : Nat) (si sj s' : List (K × V)) (hi : S[i]? = some si) (hj : sj ∈ S)
+    (hp : PullRel si sj s') : SGood ops (S.set i s') := by
+  have hsi : si ∈ S := List.mem_of_getElem? hi
+  have hlt : i < S.length := lt_of_getElem?_some hi
+  have hle' : ∀ k, optLe (lookupKV k s') (written ops k) := by
+    intro k
+    rcases hp k with e | e
+    · rw [e]; exact h.le si hsi k
+    · rw [e]; exact optMax_le (h.le si hsi k) (h.le sj hj k)
+  have hmono : ∀ k, optLe (lookupKV k si) (lookupKV k s') := by
+    intro k
+    rcases hp k with e | e
+    · rw [e]; exact optLe_refl _
+    · rw [e]; exact optLe_optMax_left _ _
+  refine ⟨?_, ?_, ?_⟩
+  · intro s hs k
+    rcases List.mem_or_eq_of_mem_set hs with hs | rfl
+    · exact h.le s hs k
+    · exact hle' k
+  · intro k v hv
+    obtain ⟨s, hs, hsv⟩ := h.att k v hv
+    obtain ⟨idx, hidx⟩ := List.mem_iff_getElem?.1 hs
+    by_cases hne : idx = i
+    · subst hne
+      rw [hi] at hidx
+      cases hidx
+      refine ⟨s', mem_set_self' S idx s' hlt, ?_⟩
+      apply optLe_antisymm
+      · rw [← hv]; exact hle' k
+      · rw [← hsv]; exact hmono k
+    · exact ⟨s, mem_set_ne' S i idx s' s hidx hne, hsv⟩
+  · intro s hs k x hx
+    rcases List.mem_or_eq_of_mem_set hs with hs | rfl
+    · exact h.wr s hs k x hx
+    · rcases hp k with e | e
+      · rw [e] at hx; exact h.wr si hsi k x hx
+      · rw [e] at hx
+        rcases optMax_eq_some hx with e' | e'
+        · exact h.wr si hsi k x e'
+        · exact h.wr sj hj k x e'
+
+theorem sgood_snoc_pull (ops : List (SyncOp K V)) (S : List (List (K × V))) (h : SGood ops S)
+    (i j : Nat) : SGood (ops ++ [SyncOp.pull i j]) S := by
+  refine ⟨?_, ?_, ?_⟩
+  · intro s hs k; rw [written_snoc_pull]; exact h.le s hs k
+  · intro k v hv; rw [written_snoc_pull] at hv; exact h.att k v hv
+  · intro s hs k x hx
+    obtain ⟨r0, hr0⟩ := h.wr s hs k x hx
+    exact ⟨r0, List.mem_append_left _ hr0⟩
+
+theorem sgood_set_write (ops : List (SyncOp K V)) (S : List (List (K × V))) (h : SGood ops S)
+    (r : Nat) (kw : K) (v : V) (sr s' : List (K × V)) (hr : S[r]? = some sr)
+    (hw : ∀ k, lookupKV k s' = if k = kw then optMax (lookupKV kw sr) (some v) else lookupKV k sr) :
+    SGood (ops ++ [SyncOp.write r kw v]) (S.set r s') := by
+  have hsr : sr ∈ S := List.mem_of_getElem? hr
+  have hlt : r < S.length := lt_of_getElem?_some hr
+  have hWmono : ∀ k, optLe (written ops k) (written (ops ++ [SyncOp.write r kw v]) k) := by
+    intro k
+    rw [written_snoc_write]
+    by_cases e : kw = k
+    · simp only [e, if_true]; exact optLe_optMax_left _ _
+    · simp only [e, if_false]; exact optLe_refl _
+  have hmono : ∀ k, optLe (lookupKV k sr) (lookupKV k s') := by
+    intro k
+    rw [hw k]
+    by_cases e : k = kw
+    · subst e; simp only [if_true]; exact optLe_optMax_left _ _
+    · simp only [e, if_false]; exact optLe_refl _
+  have hle' : ∀ k, optLe (lookupKV k s') (written (ops ++ [SyncOp.write r kw v]) k) := by
+    intro k
+    rw [hw k, written_snoc_write]
+    by_cases e : k = kw
+    · subst e
+      simp only [if_true]
+      exact optMax_le (optLe_trans (h.le sr hsr k) (optLe_optMax_left _ _)) (optLe_optMax_right _ _)
+    · simp only [e, Ne.symm e, if_false]
+      exact h.le sr hsr k
+  have hle : ∀ s ∈ S.set r s', ∀ k, optLe (lookupKV k s) (written (ops ++ [SyncOp.write r kw v]) k) := by
+    intro s hs k
+    rcases List.mem_or_eq_of_mem_set hs with hs | rfl
+    · exact optLe_trans (h.le s hs k) (hWmono k)
+    · exact hle' k
+  -- anything the old state attained is still dominated by some member
+  have hold : ∀ k w, written ops k = some w → ∃ s ∈ S.set r s', optLe (some w) (lookupKV k s) := by
+    intro k w hw'
+    obtain ⟨s, hs, hsv⟩ := h.att k w hw'
+    obtain ⟨idx, hidx⟩ := List.mem_iff_getElem?.1 hs
+    by_cases hne : idx = r
+    · subst hne
+      rw [hr] at hidx
+      cases hidx
+      exact ⟨s', mem_set_self' S idx s' hlt, by rw [← hsv]; exact hmono k⟩
+    · exact ⟨s, mem_set_ne' S r idx s' s hidx hne, by rw [hsv]; exact optLe_refl _⟩
+  refine ⟨hle, ?_, ?_⟩
+  · intro k v' hv'
+    have hdom : ∃ s ∈ S.set r s', optLe (some v') (lookupKV k s) := by
+      rw [written_snoc_write] at hv'
+      by_cases e : kw = k
+      · subst e
+        simp only [if_true] at hv'
+        rcases optMax_choice (written ops kw) (some v) with c | c
+        · rw [c] at hv'
+          exact hold kw v' hv'
+        · rw [c] at hv'
+          cases hv'
+          refine ⟨s', mem_set_self' S r s' hlt, ?_⟩
+          rw [hw kw]; simp only [if_true]
+          exact optLe_optMax_right _ _
+      · simp only [e, if_false] at hv'
+        exact hold k v' hv'
+    obtain ⟨s, hs, hd⟩ := hdom
+    refine ⟨s, hs, ?_⟩
+    apply optLe_antisymm
+    · rw [← hv']; exact hle s hs k
+    · exact hd
+  · intro s hs k x hx
+    rcases List.mem_or_eq_of_mem_set hs with hs | rfl
+    · obtain ⟨r0, hr0⟩ := h.wr s hs k x hx
+      exact ⟨r0, List.mem_append_left _ hr0⟩
+    · rw [hw k] at hx
+      by_cases e : k = kw
+      · subst e
+        simp only [if_true] at hx
+        rcases optMax_eq_some hx with e' | e'
+        · obtain ⟨r0, hr0⟩ := h.wr sr hsr k x e'
+          exact ⟨r0, List.mem_append_left _ hr0⟩
+        · cases e'
+          exact ⟨r, List.mem_append_right _ (List.mem_singleton.2 rfl)⟩
+      · simp only [e, if_false] at hx
+        obtain ⟨r0, hr0⟩ := h.wr sr hsr k x hx
+        exact ⟨r0, List.mem_append_left _ hr0⟩
+
+theorem sgood_fresh (n : Nat) : SGood ([] : List (SyncOp K V)) (List.replicate n ([] : List (K × V))) := by
+  refine ⟨?_, ?_, ?_⟩
+  · intro s hs k
+    rw [List.eq_of_mem_replicate hs]
+    simp [lookupKV, optLe]
+  · intro k v hv
+    simp [written] at hv
+  · intro s hs k x hx
+    rw [List.eq_of_mem_replicate hs] at hx
+    simp [lookupKV] at hx
+
+/-- the list of stores of a list of replicas -/
+def storesOf (rs : List (Replica K V D)) : List (List (K × V)) := rs.map (·.store)
+
+omit [LinearOrder K] [LinearOrder V] [DecidableEq D] in
+theorem storesOf_getElem? (rs : List (Replica K V D)) (i : Nat) (r : Replica K V D)
+    (h : rs[i]? = some r) : (storesOf rs)[i]? = some r.store := by
+  simp [storesOf, h]
+
+omit [LinearOrder K] [LinearOrder V] [DecidableEq D] in
+theorem mem_storesOf (rs : List (Replica K V D)) (r : Replica K V D) (h : r ∈ rs) :
+    r.store ∈ storesOf rs := List.mem_map_of_mem h
+
+omit [LinearOrder K] [LinearOrder V] [DecidableEq D] in
+/-- overwriting the sender by a replica with the same store leaves the list of stores alone -/
+theorem storesOf_set_set (rs : List (Replica K V D)) (i j : Nat) (ri' rj rj' : Replica K V D)
+    (hij : i ≠ j) (hj : rs[j]? = some rj) (hs : rj'.store = rj.store) :
+    storesOf ((rs.set i ri').set j rj') = (storesOf rs).set i ri'.store := by
+  unfold storesOf
+  rw [List.map_set, List.map_set, hs]
+  apply List.ext_getElem?
+  intro idx
+  by_cases e : j = idx
+  · subst e
+    obtain ⟨hlt, hjj⟩ := List.getElem?_eq_some_iff.1 hj
+    simp [hij, hlt, hjj]
+  · simp [e]
+
+theorem set_eq_self {α : Type} {l : List α} {i : Nat} {a : α} (h : l[i]? = some a) : l.set i a = l := by
+  obtain ⟨hlt, hget⟩ := List.getElem?_eq_some_iff.1 h
+  rw [← hget]
+  exact List.set_getElem_self hlt
+
+/-! ### The potential -/
+
+/-- `x` is strictly below `some v` -/
+def below (x : Option V) (v : V) : Bool :=
+  match x with
+  | none => true
+  | some y => decide (y < v)
+
+/-- the number of write operations whose value the store `s` has not reached yet -/
+def phi (ops : List (SyncOp K V)) (s : List (K × V)) : Nat :=
+  ops.countP (fun op => match op with
+    | .write _ k v => below (lookupKV k s) v
+    | .pull _ _ => false)
+
+def Psi (ops : List (SyncOp K V)) (S : List (List (K × V))) : Nat := (S.map (phi ops)).sum
+
+theorem below_mono {x x' : Option V} (h : optLe x x') (v : V) (hb : below x' v = true) :
+    below x v = true := by
+  cases x with
+  | none => rfl
+  | some a =>
+    cases x' with
+    | none => simp [optLe] at h
+    | some b =>
+      simp only [optLe] at h
+      simp only [below, decide_eq_true_eq] at hb ⊢
+      exact lt_of_le_of_lt h hb
+
+theorem phi_le_length (ops : List (SyncOp K V)) (s : List (K × V)) : phi ops s ≤ ops.length :=
+  List.countP_le_length
+
+theorem phi_mono (ops : List (SyncOp K V)) (s s' : List (K × V))
+    (h : ∀ k, optLe (lookupKV k s) (lookupKV k s')) : phi ops s' ≤ phi ops s := by
+  apply List.countP_mono_left
+  intro op _ hop
+  cases op with
+  | write r k v => exact below_mono (h k) v hop
+  | pull i j => exact hop
+
+theorem countP_lt {α : Type} (p q : α → Bool) (l : List α)
+    (hpq : ∀ x ∈ l, p x = true → q x = true) (a : α) (ha : a ∈ l) (hpa : p a = false)
+    (hqa : q a = true) : l.countP p < l.countP q := by
+  induction l with
+  | nil => cases ha
+  | cons b l ih =>
+    have hrest : l.countP p ≤ l.countP q :=
+      List.countP_mono_left (fun x hx => hpq x (List.mem_cons_of_mem _ hx))
+    rcases List.mem_cons.1 ha with rfl | ha'
+    · rw [List.countP_cons_of_neg (by simp [hpa]), List.countP_cons_of_pos hqa]
+      omega
+    · have := ih (fun x hx => hpq x (List.mem_cons_of_mem _ hx)) ha'
+      by_cases hb : p b = true
+      · rw [List.countP_cons_of_pos hb, List.countP_cons_of_pos (hpq b List.mem_cons_self hb)]
+        omega
+      · rw [List.countP_cons_of_neg hb]
+        have : l.countP q ≤ (b :: l).countP q := by
+          rw [List.countP_cons]; omega
+        omega
+
+theorem phi_strict (ops : List (SyncOp K V)) (s s' : List (K × V))
+    (h : ∀ k, optLe (lookupKV k s) (lookupKV k s')) (r0 : Nat) (k : K) (z : V)
+    (hmem : SyncOp.write r0 k z ∈ ops) (hz : lookupKV k s' = some z)
+    (hb : below (lookupKV k s) z = true) : phi ops s' < phi ops s := by
+  apply countP_lt _ _ ops _ (SyncOp.write r0 k z) hmem
+  · simp [hz, below]
+  · exact hb
+  · intro op _ hop
+    cases op with
+    | write r k v => exact below_mono (h k) v hop
+    | pull i j => exact hop
+
+theorem pullRel_mono {si sj s' : List (K × V)} (hp : PullRel si sj s') (k : K) :
+    optLe (lookupKV k si) (lookupKV k s') := by
+  rcases hp k with e | e
+  · rw [e]; exact optLe_refl _
+  · rw [e]; exact optLe_optMax_left _ _
+
+theorem pullRel_phi_lt (ops : List (SyncOp K V)) (si sj s' : List (K × V)) (hsi : KSorted si)
+    (hs' : KSorted s') (hp : PullRel si sj s')
+    (hwr : ∀ k x, lookupKV k sj = some x → ∃ r0, SyncOp.write r0 k x ∈ ops) (hne : s' ≠ si) :
+    phi ops s' < phi ops si := by
+  have hex : ∃ k, lookupKV k s' ≠ lookupKV k si := by
+    by_contra hcon
+    apply hne
+    apply storeN_ext _ _ hs' hsi
+    intro k
+    by_contra hk
+    exact hcon ⟨k, hk⟩
+  obtain ⟨k, hk⟩ := hex
+  rcases hp k with e | e
+  · exact absurd e hk
+  rcases optMax_choice (lookupKV k si) (lookupKV k sj) with c | c
+  · rw [c] at e; exact absurd e hk
+  rw [c] at e
+  have hm := pullRel_mono hp k
+  cases hz : lookupKV k s' with
+  | none =>
+    rw [hz] at hm
+    rw [optLe_none hm] at hk
+    exact absurd hz hk
+  | some z =>
+    obtain ⟨r0, hr0⟩ := hwr k z (e ▸ hz)
+    apply phi_strict ops si s' (pullRel_mono hp) r0 k z hr0 hz
+    rw [hz] at hm hk
+    cases hx : lookupKV k si with
+    | none => rfl
+    | some a =>
+      rw [hx] at hm hk
+      simp only [optLe] at hm
+      have hne' : a ≠ z := fun h => hk (by rw [h])
+      simp only [below, decide_eq_true_eq]
+      exact lt_of_le_of_ne hm hne'
+
+theorem sum_map_set_le {α : Type} (f : α → Nat) (l : List α) (i : Nat) (x a : α)
+    (h : l[i]? = some a) (hx : f x ≤ f a) : ((l.set i x).map f).sum ≤ (l.map f).sum := by
+  induction l generalizing i with
+  | nil => simp at h
+  | cons b l ih =>
+    cases i with
+    | zero =>
+      simp at h; subst h
+      simp; omega
+    | succ i =>
+      simp at h
+      have := ih i h
+      simp only [List.set_cons_succ, List.map_cons, List.sum_cons]; omega
+
+theorem sum_map_set_lt {α : Type} (f : α → Nat) (l : List α) (i : Nat) (x a : α)
+    (h : l[i]? = some a) (hx : f x < f a) : ((l.set i x).map f).sum < (l.map f).sum := by
+  induction l generalizing i with
+  | nil => simp at h
+  | cons b l ih =>
+    cases i with
+    | zero =>
+      simp at h; subst h
+      simp; omega
+    | succ i =>
+      simp at h
+      have := ih i h
+      simp only [List.set_cons_succ, List.map_cons, List.sum_cons]; omega
+
+theorem Psi_le_bound (ops : List (SyncOp K V)) (S : List (List (K × V))) :
+    Psi ops S ≤ S.length * ops.length := by
+  induction S with
+  | nil => simp [Psi]
+  | cons s S ih =>
+    have h1 := phi_le_length ops s
+    simp only [Psi, List.map_cons, List.sum_cons, List.length_cons, Nat.succ_mul] at ih ⊢
+    omega
+
+/-! ### One pull from a good state -/
+
+/-- the pull `a ← b` between replicas with these stores leaves the receiver's store alone -/
+def QuietS (lvl : K → Nat) (hc : HashCfg K V D) (sa sb : List (K × V)) : Prop :=
+  ∃ a b a' b' : Replica K V D, RInv lvl hc a ∧ RInv lvl hc b ∧ a.store = sa ∧ b.store = sb ∧
+    pull lvl hc .joinMax a b = .ok (a', b') ∧ a'.store = sa
+
+def AllEqS (S : List (List (K × V))) : Prop := ∀ s1 ∈ S, ∀ s2 ∈ S, s1 = s2
+
+theorem good_pull_step (lvl : K → Nat) (hlvl : ∀ k, lvl k < 255) (hc : HashCfg K V D)
+    (ops : List (SyncOp K V)) (rs : List (Replica K V D)) (hinv : ∀ r ∈ rs, RInv lvl hc r)
+    (hg : SGood ops (storesOf rs)) (i j : Nat) :
+    ∃ rs', syncStep lvl hc .joinMax rs (.pull i j) = .ok rs' ∧ rs'.length = rs.length ∧
+      (∀ r ∈ rs', RInv lvl hc r) ∧ SGood ops (storesOf rs') ∧
+      Psi ops (storesOf rs') ≤ Psi ops (storesOf rs) ∧
+      (Psi ops (storesOf rs') < Psi ops (storesOf rs) ∨
+        (storesOf rs' = storesOf rs ∧
+          (i ≠ j → ∀ sa sb, (storesOf rs)[i]? = some sa → (storesOf rs)[j]? = some sb →
+            QuietS lvl hc sa sb))) ∧
+      (AllEqS (storesOf rs) → storesOf rs' = storesOf rs) := by
+  obtain ⟨rs', hstep, hl, hinv'⟩ := step_gen_inv lvl hlvl hc .joinMax rs hinv (.pull i j)
+  obtain ⟨rs'', hstep', hcases⟩ := step_pull_gen lvl hlvl hc .joinMax rs hinv i j
+  have e := hstep.symm.trans hstep'
+  injection e with e
+  subst e
+  refine ⟨rs', hstep, hl, hinv', ?_⟩
+  rcases hcases with ⟨rfl, htriv⟩ | ⟨hij, ri, rj, ri', rj', ranges, hi, hj, hp, h1, h2, h3, h4, rfl⟩
+  · refine ⟨hg, le_refl _, Or.inr ⟨rfl, ?_⟩, fun _ => rfl⟩
+    intro hij sa sb hsa hsb
+    rcases htriv with e | e | e
+    · exact absurd e hij
+    · simp [storesOf, e] at hsa
+    · simp [storesOf, e] at hsb
+  · have hS := storesOf_set_set rs i j ri' rj rj' hij hj h3
+    rw [hS]
+    have hri := hinv ri (List.mem_of_getElem? hi)
+    have hrj := hinv rj (List.mem_of_getElem? hj)
+    have hpr : PullRel ri.store rj.store ri'.store := by
+      rw [h4]; exact pullN_lookup _ _ hri.sorted hrj.sorted ranges
+    have hSi := storesOf_getElem? rs i ri hi
+    have hSj := storesOf_getElem? rs j rj hj
+    have hmj : rj.store ∈ storesOf rs := mem_storesOf rs rj (List.mem_of_getElem? hj)
+    have hmi : ri.store ∈ storesOf rs := mem_storesOf rs ri (List.mem_of_getElem? hi)
+    refine ⟨sgood_set_pull ops _ hg i ri.store rj.store ri'.store hSi hmj hpr,
+      sum_map_set_le (phi ops) _ i _ _ hSi (phi_mono ops _ _ (pullRel_mono hpr)), ?_, ?_⟩
+    · by_cases hne : ri'.store = ri.store
+      · right
+        refine ⟨by rw [hne]; exact set_eq_self hSi, ?_⟩
+        intro _ sa sb hsa hsb
+        rw [hSi] at hsa; cases hsa
+        rw [hSj] at hsb; cases hsb
+        exact ⟨ri, rj, ri', rj', hri, hrj, rfl, rfl, hp, hne⟩
+      · left
+        exact sum_map_set_lt (phi ops) _ i _ _ hSi
+          (pullRel_phi_lt ops _ _ _ hri.sorted h1.sorted hpr (hg.wr _ hmj) hne)
+    · intro hall
+      have heq : rj.store = ri.store := hall _ hmj _ hmi
+      rw [heq] at hpr
+      rw [pullRel_self _ _ hri.sorted h1.sorted hpr]
+      exact set_eq_self hSi
+
+theorem good_write_step (lvl : K → Nat) (hlvl : ∀ k, lvl k < 255) (hc : HashCfg K V D)
+    (ops : List (SyncOp K V)) (rs : List (Replica K V D)) (hinv : ∀ r ∈ rs, RInv lvl hc r)
+    (hg : SGood ops (storesOf rs)) (r : Nat) (k : K) (v : V) (hr : r < rs.length) :
+    ∃ rs', syncStep lvl hc .joinMax rs (.write r k v) = .ok rs' ∧ rs'.length = rs.length ∧
+      (∀ r ∈ rs', RInv lvl hc r) ∧ SGood (ops ++ [SyncOp.write r k v]) (storesOf rs') := by
+  obtain ⟨rs', hstep, hl, hinv'⟩ := step_gen_inv lvl hlvl hc .joinMax rs hinv (.write r k v)
+  obtain ⟨rs'', hstep', hcases⟩ := step_write_gen lvl hlvl hc .joinMax rs hinv r k v
+  have e := hstep.symm.trans hstep'
+  injection e with e
+  subst e
+  refine ⟨rs', hstep, hl, hinv', ?_⟩
+  rcases hcases with ⟨-, hnone⟩ | ⟨rep, rep', hrep, h1, h2, rfl⟩
+  · simp [hr] at hnone
+  · have hrr := hinv rep (List.mem_of_getElem? hrep)
+    have : storesOf (rs.set r rep') = (storesOf rs).set r rep'.store := by
+      simp [storesOf, List.map_set]
+    rw [this]
+    apply sgood_set_write ops _ hg r k v rep.store rep'.store (storesOf_getElem? rs r rep hrep)
+    intro k'
+    rw [h2]
+    exact write_lookup rep.store hrr.sorted k v k'
+
+theorem run_good_from (lvl : K → Nat) (hlvl : ∀ k, lvl k < 255) (hc : HashCfg K V D) (n : Nat) :
+    ∀ (todo done : List (SyncOp K V)) (rs : List (Replica K V D)), rs.length = n →
+      (∀ r ∈ rs, RInv lvl hc r) → SGood done (storesOf rs) →
+      (∀ op ∈ todo, match op with | .write r _ _ => r < n | .pull i j => i < n ∧ j < n) →
+      ∃ rs', syncRun lvl hc .joinMax rs todo = .ok rs' ∧ rs'.length = n ∧
+        (∀ r ∈ rs', RInv lvl hc r) ∧ SGood (done ++ todo) (storesOf rs') := by
+  intro todo
+  induction todo with
+  | nil =>
+    intro done rs hl hinv hg _
+    exact ⟨rs, rfl, hl, hinv, by simpa using hg⟩
+  | cons op todo ih =>
+    intro done rs hl hinv hg hw
+    have hw' : ∀ op ∈ todo, match op with | .write r _ _ => r < n | .pull i j => i < n ∧ j < n :=
+      fun o ho => hw o (List.mem_cons_of_mem _ ho)
+    have happ : done ++ op :: todo = (done ++ [op]) ++ todo := by simp
+    rw [happ]
+    cases op with
+    | write r k v =>
+      have hr : r < n := hw (.write r k v) List.mem_cons_self
+      obtain ⟨rs1, hs1, hl1, hi1, hg1⟩ :=
+        good_write_step lvl hlvl hc done rs hinv hg r k v (by rw [hl]; exact hr)
+      obtain ⟨rs2, hs2, hl2, hi2, hg2⟩ := ih (done ++ [.write r k v]) rs1 (hl1.trans hl) hi1 hg1 hw'
+      exact ⟨rs2, by simp [syncRun, hs1, hs2], hl2, hi2, hg2⟩
+    | pull i j =>
+      obtain ⟨rs1, hs1, hl1, hi1, hg1, -⟩ := good_pull_step lvl hlvl hc done rs hinv hg i j
+      obtain ⟨rs2, hs2, hl2, hi2, hg2⟩ := ih (done ++ [.pull i j]) rs1 (hl1.trans hl) hi1
+        (sgood_snoc_pull done _ hg1 i j) hw'
+      exact ⟨rs2, by simp [syncRun, hs1, hs2], hl2, hi2, hg2⟩
+
+theorem run_good (lvl : K → Nat) (hlvl : ∀ k, lvl k < 255) (hc : HashCfg K V D)
+    (n : Nat) (ops : List (SyncOp K V))
+    (hw : ∀ op ∈ ops, match op with | .write r _ _ => r < n | .pull i j => i < n ∧ j < n) :
+    ∃ rs, syncRun lvl hc .joinMax (freshReplicas n : List (Replica K V D)) ops = .ok rs ∧
+      rs.length = n ∧ (∀ r ∈ rs, RInv lvl hc r) ∧ SGood ops (storesOf rs) := by
+  have h := run_good_from lvl hlvl hc n ops [] (freshReplicas n : List (Replica K V D))
+    (by simp [freshReplicas])
+    (by
+      intro r hr
+      rw [List.eq_of_mem_replicate hr]
+      exact Replica.empty_inv lvl hc)
+    (by
+      have : storesOf (freshReplicas n : List (Replica K V D)) = List.replicate n [] := by
+        simp [storesOf, freshReplicas, Replica.empty]
+      rw [this]
+      exact sgood_fresh n)
+    hw
+  simpa using h
+
 /-- Safety under the join merge, for every schedule from fresh replicas in which every write
 addresses an existing replica: no replica ever holds more than the join of everything written, and
 nothing written is lost — for every key the join over all replicas is exactly the join of
@@ -40,12 +708,175 @@ theorem syncRun_safe (lvl : K → Nat) (hlvl : ∀ k, lvl k < 255) (hc : HashCfg
     ∃ rs, syncRun lvl hc .joinMax (freshReplicas n : List (Replica K V D)) ops = .ok rs ∧ rs.length = n ∧
       (∀ r ∈ rs, ∀ k, optLe (lookupKV k r.store) (written ops k)) ∧
       (∀ k v, written ops k = some v → ∃ r ∈ rs, lookupKV k r.store = some v) := by
-  sorry
+  obtain ⟨rs, hrun, hl, -, hg⟩ := run_good lvl hlvl hc n ops hw
+  refine ⟨rs, hrun, hl, ?_, ?_⟩
+  · intro r hr k
+    exact hg.le _ (mem_storesOf rs r hr) k
+  · intro k v hv
+    obtain ⟨s, hs, hsv⟩ := hg.att k v hv
+    obtain ⟨r, hr, rfl⟩ := List.mem_map.1 hs
+    exact ⟨r, hr, hsv⟩
 
 /-- A sweep: a sequence of pulls in which every ordered pair of distinct replicas occurs. -/
 def IsSweep (n : Nat) (s : List (SyncOp K V)) : Prop :=
   (∀ op ∈ s, match op with | .pull i j => i < n ∧ j < n | .write _ _ _ => False) ∧
   ∀ i j, i < n → j < n → i ≠ j → SyncOp.pull i j ∈ s
+
+/-! ### Runs of pulls -/
+
+theorem syncRun_append (lvl : K → Nat) (hc : HashCfg K V D) (m : Merge)
+    (rs : List (Replica K V D)) (o1 o2 : List (SyncOp K V)) :
+    syncRun lvl hc m rs (o1 ++ o2) =
+      (match syncRun lvl hc m rs o1 with
+       | .error e => .error e
+       | .ok rs' => syncRun lvl hc m rs' o2) := by
+  induction o1 generalizing rs with
+  | nil => rfl
+  | cons op o1 ih =>
+    simp only [List.cons_append, syncRun]
+    cases h : syncStep lvl hc m rs op with
+    | error e => rfl
+    | ok rs' => exact ih rs'
+
+def PullOnly (s : List (SyncOp K V)) : Prop := ∀ op ∈ s, ∃ i j, op = SyncOp.pull i j
+
+omit [LinearOrder K] [LinearOrder V] in
+theorem IsSweep.pullOnly {n : Nat} {s : List (SyncOp K V)} (h : IsSweep n s) : PullOnly s := by
+  intro op hop
+  have := h.1 op hop
+  cases op with
+  | write r k v => exact absurd this (by simp)
+  | pull i j => exact ⟨i, j, rfl⟩
+
+theorem pulls_run (lvl : K → Nat) (hlvl : ∀ k, lvl k < 255) (hc : HashCfg K V D)
+    (ops : List (SyncOp K V)) :
+    ∀ (s : List (SyncOp K V)) (rs : List (Replica K V D)), (∀ r ∈ rs, RInv lvl hc r) →
+      SGood ops (storesOf rs) → PullOnly s →
+      ∃ rs', syncRun lvl hc .joinMax rs s = .ok rs' ∧ rs'.length = rs.length ∧
+        (∀ r ∈ rs', RInv lvl hc r) ∧ SGood ops (storesOf rs') ∧
+        Psi ops (storesOf rs') ≤ Psi ops (storesOf rs) ∧
+        (Psi ops (storesOf rs') < Psi ops (storesOf rs) ∨
+          (storesOf rs' = storesOf rs ∧
+            ∀ i j, SyncOp.pull i j ∈ s → i ≠ j → ∀ sa sb, (storesOf rs)[i]? = some sa →
+              (storesOf rs)[j]? = some sb → QuietS lvl hc sa sb)) ∧
+        (AllEqS (storesOf rs) → storesOf rs' = storesOf rs) := by
+  intro s
+  induction s with
+  | nil =>
+    intro rs hinv hg _
+    refine ⟨rs, rfl, rfl, hinv, hg, le_refl _, Or.inr ⟨rfl, ?_⟩, fun _ => rfl⟩
+    intro i j hmem
+    cases hmem
+  | cons op s ih =>
+    intro rs hinv hg hpo
+    obtain ⟨i, j, rfl⟩ := hpo op List.mem_cons_self
+    have hpo' : PullOnly s := fun o ho => hpo o (List.mem_cons_of_mem _ ho)
+    obtain ⟨rs1, hs1, hl1, hi1, hg1, hle1, hd1, he1⟩ := good_pull_step lvl hlvl hc ops rs hinv hg i j
+    obtain ⟨rs2, hs2, hl2, hi2, hg2, hle2, hd2, he2⟩ := ih rs1 hi1 hg1 hpo'
+    refine ⟨rs2, by simp [syncRun, hs1, hs2], hl2.trans hl1, hi2, hg2, le_trans hle2 hle1, ?_, ?_⟩
+    · rcases hd1 with hlt | ⟨hS1, hq1⟩
+      · exact Or.inl (lt_of_le_of_lt hle2 hlt)
+      · rcases hd2 with hlt | ⟨hS2, hq2⟩
+        · left; rw [hS1] at hlt; exact hlt
+        · right
+          refine ⟨hS2.trans hS1, ?_⟩
+          intro i' j' hmem hne sa sb hsa hsb
+          rcases List.mem_cons.1 hmem with e | hmem'
+          · injection e with e1 e2
+            subst e1; subst e2
+            exact hq1 hne sa sb hsa hsb
+          · rw [hS1] at hq2
+            exact hq2 i' j' hmem' hne sa sb hsa hsb
+    · intro hall
+      have h1 := he1 hall
+      rw [← h1] at hall
+      exact (he2 hall).trans h1
+
+theorem quiet_pull (lvl : K → Nat) (hlvl : ∀ k, lvl k < 255) (hc : HashCfg K V D)
+    (a b a' b' : Replica K V D) (ha : RInv lvl hc a) (hb : RInv lvl hc b)
+    (hq : QuietS lvl hc a.store b.store) (hp : pull lvl hc .joinMax a b = .ok (a', b')) :
+    a'.store = a.store := by
+  obtain ⟨x, y, x', y', hx, hy, ex, ey, hpx, hqx⟩ := hq
+  obtain ⟨p, q, p', q', h1, h2, h3, -⟩ :=
+    pull_store_congr lvl hlvl hc .joinMax a b x y ha hb hx hy ex.symm ey.symm
+  have e1 := hp.symm.trans h1
+  injection e1 with e1
+  injection e1 with e1 _
+  have e2 := hpx.symm.trans h2
+  injection e2 with e2
+  injection e2 with e2 _
+  rw [e1, h3, ← e2, hqx]
+
+theorem quiet_allEq (lvl : K → Nat) (hlvl : ∀ k, lvl k < 255) (hc : HashCfg K V D)
+    (hnc : NoCollisions hc) (rs : List (Replica K V D)) (hinv : ∀ r ∈ rs, RInv lvl hc r)
+    (hq : ∀ i j : Nat, i ≠ j → ∀ sa sb, (storesOf rs)[i]? = some sa → (storesOf rs)[j]? = some sb →
+      QuietS lvl hc sa sb) : AllEqS (storesOf rs) := by
+  intro s1 hs1 s2 hs2
+  obtain ⟨i, hi⟩ := List.mem_iff_getElem?.1 hs1
+  obtain ⟨j, hj⟩ := List.mem_iff_getElem?.1 hs2
+  by_cases hij : i = j
+  · subst hij
+    rw [hi] at hj
+    exact Option.some.inj hj
+  · by_contra hne
+    have hq1 := hq i j hij s1 s2 hi hj
+    have hq2 := hq j i (Ne.symm hij) s2 s1 hj hi
+    have hi' := hi
+    have hj' := hj
+    simp only [storesOf, List.getElem?_map, Option.map_eq_some_iff] at hi' hj'
+    obtain ⟨a, ha, rfl⟩ := hi'
+    obtain ⟨b, hb, rfl⟩ := hj'
+    have hra := hinv a (List.mem_of_getElem? ha)
+    have hrb := hinv b (List.mem_of_getElem? hb)
+    rcases pull_progress lvl hlvl hc hnc .joinMax a b hra hrb hne with
+      ⟨a', b', hp, hch⟩ | ⟨b', a', hp, hch⟩
+    · exact hch (quiet_pull lvl hlvl hc a b a' b' hra hrb hq1 hp)
+    · exact hch (quiet_pull lvl hlvl hc b a b' a' hrb hra hq2 hp)
+
+theorem sweeps_run (lvl : K → Nat) (hlvl : ∀ k, lvl k < 255) (hc : HashCfg K V D)
+    (hnc : NoCollisions hc) (ops : List (SyncOp K V)) (n : Nat) :
+    ∀ (sweeps : List (List (SyncOp K V))) (rs : List (Replica K V D)), rs.length = n →
+      (∀ r ∈ rs, RInv lvl hc r) → SGood ops (storesOf rs) → (∀ s ∈ sweeps, IsSweep n s) →
+      (Psi ops (storesOf rs) < sweeps.length ∨ AllEqS (storesOf rs)) →
+      ∃ rs', syncRun lvl hc .joinMax rs sweeps.flatten = .ok rs' ∧ rs'.length = n ∧
+        (∀ r ∈ rs', RInv lvl hc r) ∧ SGood ops (storesOf rs') ∧ AllEqS (storesOf rs') := by
+  intro sweeps
+  induction sweeps with
+  | nil =>
+    intro rs hl hinv hg _ hd
+    refine ⟨rs, rfl, hl, hinv, hg, ?_⟩
+    rcases hd with hd | hd
+    · simp at hd
+    · exact hd
+  | cons s ss ih =>
+    intro rs hl hinv hg hsw hd
+    have hsw' : ∀ s ∈ ss, IsSweep n s := fun x hx => hsw x (List.mem_cons_of_mem _ hx)
+    have hs : IsSweep n s := hsw s List.mem_cons_self
+    obtain ⟨rs1, hs1, hl1, hi1, hg1, hle1, hd1, he1⟩ :=
+      pulls_run lvl hlvl hc ops s rs hinv hg hs.pullOnly
+    have hnext : Psi ops (storesOf rs1) < ss.length ∨ AllEqS (storesOf rs1) := by
+      rcases hd with hd | hd
+      · rcases hd1 with hlt | ⟨hS1, hq1⟩
+        · left
+          simp only [List.length_cons] at hd
+          omega
+        · right
+          rw [hS1]
+          apply quiet_allEq lvl hlvl hc hnc rs hinv
+          intro i j hij sa sb hsa hsb
+          have hi : i < n := by
+            have := lt_of_getElem?_some hsa
+            simpa [storesOf, hl] using this
+          have hj : j < n := by
+            have := lt_of_getElem?_some hsb
+            simpa [storesOf, hl] using this
+          exact hq1 i j (hs.2 i j hi hj hij) hij sa sb hsa hsb
+      · right
+        rw [he1 hd]; exact hd
+    obtain ⟨rs2, hs2, hl2, hi2, hg2, he2⟩ := ih rs1 (hl1.trans hl) hi1 hg1 hsw' hnext
+    refine ⟨rs2, ?_, hl2, hi2, hg2, he2⟩
+    rw [List.flatten_cons, syncRun_append, hs1]
+    exact hs2
 
 /-- Liveness once writes stop: from the state reached by ANY schedule, every continuation made of
 sufficiently many sweeps (each pulling between all pairs, in any order, with any extra pulls)
@@ -61,6 +892,38 @@ theorem syncRun_live (lvl : K → Nat) (hlvl : ∀ k, lvl k < 255) (hc : HashCfg
       (∀ r ∈ rs, ∀ k, lookupKV k r.store = written ops k) ∧
       (∀ r₁ ∈ rs, ∀ r₂ ∈ rs, r₁.store = r₂.store ∧
         (r₁.tree.genRootHash hc).rootHash = (r₂.tree.genRootHash hc).rootHash) := by
-  sorry
+  obtain ⟨rs0, hrun0, hl0, hi0, hg0⟩ := run_good lvl hlvl hc n ops hw
+  have hpsi : Psi ops (storesOf rs0) < sweeps.length := by
+    have := Psi_le_bound ops (storesOf rs0)
+    have hlen' : (storesOf rs0).length = n := by simp [storesOf, hl0]
+    rw [hlen'] at this
+    omega
+  obtain ⟨rs, hrun, hl, hi, hg, heq⟩ :=
+    sweeps_run lvl hlvl hc hnc ops n sweeps rs0 hl0 hi0 hg0 hs (Or.inl hpsi)
+  refine ⟨rs, ?_, hl, ?_, ?_⟩
+  · rw [syncRun_append, hrun0]
+    exact hrun
+  · intro r hr k
+    have hm := mem_storesOf rs r hr
+    cases hW : written ops k with
+    | none =>
+      have := hg.le _ hm k
+      rw [hW] at this
+      exact optLe_none this
+    | some v =>
+      obtain ⟨s, hs', hsv⟩ := hg.att k v hW
+      rw [heq _ hm _ hs']
+      exact hsv
+  · intro r₁ h₁ r₂ h₂
+    have hst : r₁.store = r₂.store := heq _ (mem_storesOf rs r₁ h₁) _ (mem_storesOf rs r₂ h₂)
+    refine ⟨hst, ?_⟩
+    have hr1 := hi r₁ h₁
+    have hr2 := hi r₂ h₂
+    obtain ⟨-, e1, -⟩ := genRootHash_inv lvl hc r₁.tree hr1.inv
+    obtain ⟨-, e2, -⟩ := genRootHash_inv lvl hc r₂.tree hr2.inv
+    have hcont : r₁.tree.root.content = r₂.tree.root.content := by
+      rw [hr1.mirror, hr2.mirror, hst]
+    have he := root_unique lvl r₁.tree.root r₂.tree.root hr1.inv.shape hr2.inv.shape hcont
+    rw [e1, e2, ← trueHash_erase hc r₁.tree.root, he, trueHash_erase]
 
 end Mst
